@@ -112,7 +112,10 @@ def scenario(rng, k, mode):
         blocks = [[2, 70000, "ff", False], [1, 1, "hash", True], [2, 0, "hash", True], [1, 1 << 20, "zeros", False]]
     args = [rng.choice(ARG_VALUES) for _ in range(rng.randrange(0, 4))]
     opts = {kk: rng.choice(ARG_VALUES) for kk in rng.sample(KEYS, rng.randrange(0, 3))}
-    return {"k": k, "mode": mode, "plan": {"seed": k, "blocks": blocks}, "args": args, "opts": opts}
+    # nested use: `cond` started from inside a task of an outer `cond run -j N` (or from a shell that exported the variables
+    # to try a script by hand) inherits the outer task's COND_* variables; they are not this invocation's business
+    ambient = {"COND_SLOT": str(k % 3), "COND_NAME": "outer", "COND_OUT": "/nonexistent/outer.task"} if k % 5 in (2, 3) else {}
+    return {"k": k, "mode": mode, "plan": {"seed": k, "blocks": blocks}, "args": args, "opts": opts, "ambient": ambient}
 
 
 def pyrepr(v):
@@ -139,7 +142,7 @@ def worker(scn):
         with open(os.path.join(root, "COND"), "w") as f:
             f.write(src)
         argv = ["run", "//:e"] + (["-j", "2"] if par else [])
-        r = C.fork_map(lambda _: CLI.run_cli(root, argv, clock=100, env={"CV_PLAN": plan_path}), [0], nproc=1, timeout=900)[0]
+        r = C.fork_map(lambda _: CLI.run_cli(root, argv, clock=100, env=dict(scn.get("ambient") or {}, CV_PLAN=plan_path)), [0], nproc=1, timeout=900)[0]
         out_dir = os.path.join(root, "cond-out", "e.task.100")
         res = {"status": r.get("status") if isinstance(r, dict) else None, "err": str(r)[:300] if not isinstance(r, dict) else ""}
 
@@ -184,7 +187,7 @@ def main(tier):
         return rep.finish()
     if mc.violated or mc.deadlock:
         rep.drift.append("Tee.tla violates %s" % (mc.violated or "deadlock"))
-    n = 60 if tier == "quick" else 1500
+    n = 240 if tier == "quick" else 3000
     scns = [scenario(rng, k, "seq" if k % 2 == 0 else "par") for k in range(n)]
     res = C.fork_map(worker, scns, timeout=1200)
     rows = []
